@@ -953,6 +953,7 @@ func (e *engine) step(i int, op Op) (stop bool, err error) {
 		e.froze = true
 	}
 
+	e.w.taint()
 	res, rerr, pan := protect(p.real)
 	if pan != "" {
 		e.th = newThread()
@@ -1043,6 +1044,7 @@ func (e *engine) step(i int, op Op) (stop bool, err error) {
 			e.noteKnown("C20-assign-clears-before-validating", fmt.Sprintf("%s: %s: %s", where, shape, firstDiff(b, a)))
 		}
 	}
+	e.w.taint()
 	if err := e.checkFrozen(where, mut, mutated); err != nil {
 		return false, err
 	}
@@ -1153,6 +1155,16 @@ func (w *world) classify(h *handle, mutated []any) string {
 		return ""
 	}
 	byCopy, byAlias := false, false
+	for _, n := range visible {
+		switch n := n.(type) {
+		case *mMsg:
+			byCopy, byAlias = byCopy || n.everCopy, byAlias || n.everAlias
+		case *mList:
+			byCopy, byAlias = byCopy || n.everCopy, byAlias || n.everAlias
+		case *mMap:
+			byCopy, byAlias = byCopy || n.everCopy, byAlias || n.everAlias
+		}
+	}
 	for _, x := range w.marked {
 		xv := newVisitor()
 		var c, a bool
